@@ -14,6 +14,7 @@ enum {
   C08_COMPARE,         // ==, !=, < between slot[dst] and source
   C08_PAYLOAD,         // write the payload through slot[dst]
   C08_DSLOT_SET,       // dslot[dst&1] = (Derived*) of source's object (raw assignment on IntrusivePtr<Derived>)
+  C08_COMPARE_MIXED,   // ==, != between slot[dst] (handle to the base type) and dslot[src&1] (handle to the derived type)
   C08_RELEASE_CREATOR, // thread 0 only: drop the creator's reference of object arg
   C08_NOPS
 };
